@@ -33,28 +33,58 @@ pub const FEAT: &str = "eio-async";
 #[cfg(all(not(feature = "unstable"), not(feature = "eio"), not(feature = "eio-async")))]
 pub const FEAT: &str = "default";
 
-fn run_tracked<const N: usize>(scn: &str, steps: &[Value]) -> String {
-    tracked::reset_scenario();
-    let mut d = drv::Drv::<N>::new(scn, FEAT);
-    let mut b = ev::Ev::new("begin", "begin");
-    b.scn = scn.to_string();
-    b.cap = N as i64;
-    b.feat = FEAT;
-    b.write(&mut d.out);
-    for st in steps {
-        d.step(st);
+fn mk_sub(n: u64, scn: &str) -> Option<Box<dyn drv::Sub>> {
+    macro_rules! arm {
+        ($($k:literal),*) => {
+            match n {
+                $( $k => Some(Box::new(drv::Drv::<$k>::new(scn, FEAT)) as Box<dyn drv::Sub>), )*
+                _ => None,
+            }
+        };
     }
-    d.finish();
-    d.out
+    arm!(0, 1, 2, 3, 4, 5, 6, 7, 8, 16, 33)
 }
 
-macro_rules! dispatch {
-    ($n:expr, $f:ident, $scn:expr, $steps:expr, [$($k:literal),*]) => {
-        match $n {
-            $( $k => Some($f::<$k>($scn, $steps)), )*
-            _ => None,
+/// one scenario on `CircularBuffer<N, Tracked>`; steps carrying `"cap": M` are routed to a sibling
+/// driver for capacity M (used for comparisons between buffers of different capacities)
+fn run_tracked(n: u64, scn: &str, steps: &[Value]) -> Option<String> {
+    tracked::reset_scenario();
+    let mut drivers: Vec<(u64, Box<dyn drv::Sub>)> = vec![(n, mk_sub(n, scn)?)];
+    let mut out = String::with_capacity(1 << 16);
+    let mut b = ev::Ev::new("begin", "begin");
+    b.scn = scn.to_string();
+    b.cap = n as i64;
+    b.feat = FEAT;
+    b.write(&mut out);
+    for st in steps {
+        let cap = st.get("cap").and_then(|v| v.as_u64()).unwrap_or(n);
+        if !drivers.iter().any(|d| d.0 == cap) {
+            drivers.push((cap, mk_sub(cap, scn)?));
         }
-    };
+        // a second operand of another capacity
+        let mut peer = None;
+        if let Some(c2) = st.get("cap2").and_then(|v| v.as_u64()) {
+            if c2 != cap {
+                let h2 = st.get("h2").and_then(|v| v.as_i64()).unwrap_or(-1);
+                if let Some(d2) = drivers.iter().find(|d| d.0 == c2) {
+                    peer = Some((c2 as usize, d2.1.buf_ptr(h2)));
+                }
+            }
+        }
+        let d = drivers.iter_mut().find(|d| d.0 == cap).unwrap();
+        d.1.set_peer(peer);
+        d.1.do_step(st);
+        d.1.set_peer(None);
+        out.push_str(&d.1.take_out());
+    }
+    let nd = drivers.len();
+    for (k, d) in drivers.iter_mut().enumerate().rev() {
+        // the main driver finishes last and writes the end-of-scenario event
+        d.1.do_finish(k == 0);
+        out.push_str(&d.1.take_out());
+        let _ = nd;
+    }
+    Some(out)
 }
 
 fn main() {
@@ -120,7 +150,7 @@ fn main() {
         let text = match ty {
             "t" => {
                 let n = sc.get("n").and_then(|v| v.as_u64()).unwrap_or(0);
-                dispatch!(n, run_tracked, &scn, steps, [0, 1, 2, 3, 4, 5, 6, 7, 8, 16, 33])
+                run_tracked(n, &scn, steps)
             }
             "b" => bytes::run(&sc, &scn, steps),
             "z" => zst::run(&sc, &scn, steps),
